@@ -119,7 +119,8 @@ func c13Seeds() []c13Seed {
 	// webdav
 	for _, p := range []string{"/", "/d", "/d/full.txt", "/missing", "/d/"} {
 		for _, m := range []string{"OPTIONS", "GET", "HEAD", "DELETE", "MKCOL", "FOO", "LOCK"} {
-			out = append(out, c13Seed{Handler: "webdav", Req: harness.Req{Method: m, Path: p}})
+			// (a DELETE may carry Depth: infinity; any value that is no Depth is invalid there as anywhere)
+			out = append(out, c13Seed{Handler: "webdav", Depth: m == "DELETE", Req: harness.Req{Method: m, Path: p, Header: map[string]string{}}})
 		}
 		out = append(out, c13Seed{Handler: "webdav", Req: harness.Req{Method: "PUT", Path: p, Body: "data"}})
 		for _, b := range []string{"", pfAllprop, pfPropname, pfProp} {
@@ -153,7 +154,7 @@ func c13Seeds() []c13Seed {
 		paths := []string{"/", "/u/", "/u/c/", "/u/c/k1/", "/u/c/k3", "/u/c/k1/o1" + ext, "/u/c/k1/new" + ext}
 		for _, p := range paths {
 			for _, m := range []string{"OPTIONS", "GET", "HEAD", "DELETE", "FOO"} {
-				out = append(out, c13Seed{Handler: kind, Req: harness.Req{Method: m, Path: p}})
+				out = append(out, c13Seed{Handler: kind, Depth: m == "DELETE", Req: harness.Req{Method: m, Path: p, Header: map[string]string{}}})
 			}
 			out = append(out, c13Seed{Handler: kind, BodyKind: bk, Req: harness.Req{Method: "PUT", Path: p, Body: body, Header: map[string]string{"Content-Type": ctype}}})
 			out = append(out, c13Seed{Handler: kind, Req: harness.Req{Method: "MKCOL", Path: p}})
